@@ -6,20 +6,21 @@ import (
 	"fmt"
 	"time"
 
+	"verif/checks/c09"
 	"verif/checks/corpus"
 	"verif/checks/sc"
 	"verif/gen"
 	"verif/internal/ev"
 	"verif/internal/lib"
 	"verif/ref/jsonpda"
-	"verif/ref/typegraph"
+	"verif/ref/refv"
 )
 
 func init() {
 	ev.Register(&ev.Check{
 		ID:    "C15",
 		Level: "exploration",
-		Rule: "every Check-accepted case of the C01 (all rule-free schemas <= 3/4 nodes, both configs), C03 (type references, or, allOf, additionalProperties, key shortcuts), C04 (34 rule slots x 13 contexts) and C09 (all fully inhabited type graphs over 1-2 types + ring/diamond families with optional/array/terminating edges, recursive child first/middle/last/only) generators plus hostile keys/strings: Example() must return nil error and bytes accepted by the reference PDA and encoding/json; Validate(Example()) on the same schema must succeed; for plain-JSON examples the bytes must equal the generator's compact rendering. Non-trivial = distinct accepted schema (rendered text + environment).",
+		Rule: "every Check-accepted case of the C01 (all rule-free schemas <= 3/4 nodes, both configs), C03 (type references, or, allOf, additionalProperties, key shortcuts), C04 (34 rule slots x 13 contexts) and C09 (all fully inhabited type graphs over 1-2 types + ring/diamond families with optional/array/terminating edges, recursive child first/middle/last/only) generators plus the deep C09 family (two types, every pair of slots per object body, 7 roots) and hostile keys/strings: Example() must return nil error and bytes accepted by the reference PDA and encoding/json; Validate(Example()) on the same schema must succeed; for plain-JSON examples the bytes must equal the generator's compact rendering. Non-trivial = distinct accepted schema (rendered text + environment).",
 		Run:         run,
 		Replay:      replay,
 		QuickBudget: 80 * time.Second,
@@ -57,6 +58,16 @@ func example(cs sc.Case) (ok bool, text string, chk lib.Res, desc string, dir st
 	return true, string(ex), r, "", ""
 }
 
+// policyFails: the simulated cut-off policy produces no document or one the
+// reference validator does not accept.
+func policyFails(cs sc.Case) bool {
+	d := simulate(cs)
+	if d == nil {
+		return true
+	}
+	return refv.Accepts(cs.Env(), cs.Root, d) != refv.Accept
+}
+
 func usesAllOf(n *gen.Node) bool {
 	found := false
 	n.Walk(func(x *gen.Node) { found = found || x.Rule("allOf") != nil })
@@ -65,7 +76,7 @@ func usesAllOf(n *gen.Node) bool {
 
 func run(c *ev.Ctx) {
 	seen := map[string]bool{}
-	corpus.ForEach(c.Thorough(), func(family string, cs sc.Case) {
+	each := func(family string, cs sc.Case) {
 		if !c.Mine() {
 			return
 		}
@@ -87,30 +98,32 @@ func run(c *ev.Ctx) {
 		if len(text) > 8 {
 			c.Sample(family, map[string]any{"schema": cs.Spec().Text, "example": text})
 		}
-		if dir == "self-rejected" || dir == "malformed" {
-			g := &typegraph.Graph{Root: cs.Root, Types: map[string]*gen.Node{}, Opt: cs.Opt}
-			for _, t := range cs.Types {
-				if t.Body != nil {
-					g.Types[t.Name] = t.Body
-				}
-			}
-			if g.HasCycle() {
-				// Known class: the recursion cut-off of the example builder omits a
-				// child where omission is not legal (see known_findings.json).
-				c.Inc("recursive_graph_" + dir)
-				c.Violate(dir+";recursive-type-graph", desc, cs)
-				return
-			}
+		if (dir == "self-rejected" || dir == "malformed") && policyFails(cs) {
+			// Known class: the documented cut-off policy itself (first alternative,
+			// omit the third nested occurrence of a type) yields a rejected example
+			// on this graph. A library result that is invalid although the policy's
+			// result is valid is a different violation and is reported below.
+			c.Inc("cutoff_policy_" + dir)
+			c.Violate(dir+";recursion-cut-off-policy", desc, cs)
+			return
 		}
 		if dir != "" {
-			red := ev.Reduce(cs, sc.Cands, func(x sc.Case) bool {
+			red := ev.Reduce(cs, sc.GraphCands, func(x sc.Case) bool {
 				ok2, _, _, _, d2 := example(x)
-				return ok2 && d2 == dir
+				if !ok2 || d2 != dir {
+					return false
+				}
+				return !((dir == "self-rejected" || dir == "malformed") && policyFails(x))
 			})
+			red = sc.Canonical(red)
 			_, _, _, desc, _ = example(red)
 			c.Violate(dir+";"+red.Describe(), desc, red)
 		}
-	})
+	}
+	corpus.ForEach(c.Thorough(), each)
+	// two-type graphs with two-property bodies: a type that recurses both
+	// directly and through an alias/or-alias of itself
+	c09.ForEachSchemaDeep(func(cs sc.Case) { each("c09deep", cs) })
 }
 
 func replay(raw stdjson.RawMessage) (bool, string) {
